@@ -136,6 +136,44 @@ func (p propC05) Gen(r *simrt.Rand, idx int, tier string) any {
 		}
 		return false
 	}
+	if concurrentOpen && idx%16 == 3 {
+		// a database written by an earlier process whose counter was far ahead is opened in a fresh
+		// process while another database of that process is busy; a key it already holds is then
+		// written again, and the final phase reopens it alone
+		d, e := 0, 1
+		key := c.Keys[0]
+		c.Ops = append(c.Ops, MOp{Op: Op{K: "open"}, DB: e})
+		for b := 0; b < 1+r.Intn(3); b++ {
+			id++
+			c.Ops = append(c.Ops, MOp{Op: Op{K: "set", Key: c.Keys[r.Intn(len(c.Keys))], ID: id, Size: r.Intn(40)}, DB: e})
+		}
+		c.Ops = append(c.Ops, MOp{Op: Op{K: "open"}, DB: d})
+		for b := 0; b < 20+r.Intn(40); b++ {
+			id++
+			c.Ops = append(c.Ops, MOp{Op: Op{K: "set", Key: c.Keys[r.Intn(len(c.Keys))], ID: id, Size: r.Intn(40)}, DB: d})
+		}
+		id++
+		c.Ops = append(c.Ops, MOp{Op: Op{K: "set", Key: key, ID: id, Size: 9 + r.Intn(40)}, DB: d},
+			MOp{Op: Op{K: "close"}, DB: d}, MOp{Op: Op{K: "close"}, DB: e}, MOp{Op: Op{K: "newproc"}}, MOp{Op: Op{K: "open"}, DB: e})
+		var con []Op
+		for b := 0; b < 4+r.Intn(8); b++ {
+			id++
+			con = append(con, Op{K: "set", Key: c.Keys[r.Intn(len(c.Keys))], ID: id, Size: r.Intn(40)})
+		}
+		c.Ops = append(c.Ops, MOp{Op: Op{K: "copen", N: 1}, DB: d, Con: con, ConDB: e})
+		if r.Intn(2) == 0 {
+			// the opener is held back whenever it is about to compare-and-swap something
+			c.Sched.Strategy, c.Sched.Bias, c.Sched.TimerProb = "stretch", 0.5, 0.01
+			c.Sched.StallG, c.Sched.StretchTag = 2, "atomic.CAS"
+			c.Sched.StretchFor, c.Sched.StretchTimes = uint64([]int{300, 800, 2000}[r.Intn(3)]), 1+r.Intn(4)
+		}
+		for b := 0; b < 1+r.Intn(3); b++ {
+			id++
+			c.Ops = append(c.Ops, MOp{Op: Op{K: "set", Key: key, ID: id, Size: 9 + r.Intn(40)}, DB: d}, MOp{Op: Op{K: "get", Key: key}, DB: d})
+		}
+		open[d], open[e] = true, true
+		n = len(c.Ops) + r.Intn(10)
+	}
 	for len(c.Ops) < n {
 		d := r.Intn(c.NDB)
 		switch {
@@ -401,7 +439,20 @@ func multiExec(c MultiCase, choices []int32) RunOut {
 					})
 					probes["open-overlapping-writes-elsewhere"]++
 				}
-				db, _, err := openInline(w.Ctx, w.ConfigFor(s.dir, s.roots))
+				var (
+					db  fs_db.DB
+					err error
+				)
+				if o.K == "copen" && o.N == 1 {
+					// the opener is a client of its own (so that a schedule can hold it back inside Open)
+					wg.Add(1)
+					simrt.GoNamed("opener", 0, func() {
+						defer wg.Done()
+						db, _, err = openInline(w.Ctx, w.ConfigFor(s.dir, s.roots))
+					})
+				} else {
+					db, _, err = openInline(w.Ctx, w.ConfigFor(s.dir, s.roots))
+				}
 				wg.Wait()
 				if err != nil {
 					fail("reopen-differs", "open", fmt.Sprintf("step %d: Open of database %d failed: %v", i, o.DB, err))
